@@ -161,8 +161,16 @@ func NewEnvAt(in string, before []int) *Env {
 		fs.AddFile(text.NewFile(fmt.Sprintf("pre%d", i), []byte(strings.Repeat("z", n))))
 	}
 	f := text.NewFile("f", []byte(in))
+	// both legal construction orders: reader before / after the file joins the set
+	var rd *text.Reader
+	if len(before)%2 == 1 {
+		rd = text.NewReader(f)
+	}
 	fs.AddFile(f)
-	return &Env{File: f, FS: fs, Ctx: parsley.NewContext(fs, text.NewReader(f)), Base: int(f.Pos(0))}
+	if rd == nil {
+		rd = text.NewReader(f)
+	}
+	return &Env{File: f, FS: fs, Ctx: parsley.NewContext(fs, rd), Base: int(f.Pos(0))}
 }
 
 // ---------------------------------------------------------------------------
